@@ -17,16 +17,17 @@ import (
 // of length TLen) offered under ref R through Path with source reader Mode on
 // Backend. It is also the replay artefact.
 type tcase struct {
-	Scenario string `json:"scenario"` // small | big
-	Tier     string `json:"tier"`
-	Backend  string `json:"backend"`
-	Path     string `json:"path"`
-	TLen     int    `json:"tlen"`
-	Pre      string `json:"pre"` // group prestate: absent | present (T stored under its three refs)
-	Off      string `json:"off"`
-	RefKind  string `json:"refkind"`
-	Ref      string `json:"ref"`
-	Mode     string `json:"mode"`
+	Scenario  string `json:"scenario"` // small | big
+	Tier      string `json:"tier"`
+	Backend   string `json:"backend"`
+	Path      string `json:"path"`
+	TLen      int    `json:"tlen"`
+	GroupTLen int    `json:"group_tlen,omitempty"` // big/quick groups hold all three sizes (0)
+	Pre       string `json:"pre"`                  // group prestate: absent | present (T stored under its three refs)
+	Off       string `json:"off"`
+	RefKind   string `json:"refkind"`
+	Ref       string `json:"ref"`
+	Mode      string `json:"mode"`
 	// PreHas: R was legitimately present (holding the bytes that match it) when the case ran.
 	PreHas bool `json:"pre_has"`
 	Chunk  int  `json:"chunk"`
@@ -120,7 +121,9 @@ func (g *genv) run(c *tcase) (*problem, string) {
 	out := g.ingest(c.Path, c.R, c.O, c.Mode)
 	obs := fmt.Sprintf("%s|%s|exp=%s|%s|pre=%v", pathFamily(c.Path), g.kind, expName(exp), out.class, preHas)
 	if out.panicMsg != "" {
-		return prob(true, "panic|"+out.panicMsg, "%s(%v, %d bytes %s, reader %s) panicked: %s", c.Path, c.R, len(c.O), c.Off, c.Mode, out.panicMsg), obs
+		// the world stays usable only if the panic came before any effect
+		dirty := g.verifyRef(c.R, preHas, pre.Data) != nil || !sameInts(lens0, g.leafLens()) || !sameInts(hooks0, g.hookCounts())
+		return prob(dirty, "panic|"+out.panicMsg, "%s(%v, %d bytes %s, reader %s) on %s panicked: %s", c.Path, c.R, len(c.O), c.Off, c.Mode, c.Backend, out.panicMsg), obs
 	}
 
 	// the good parts of a 3-part batch
@@ -158,6 +161,16 @@ func (g *genv) run(c *tcase) (*problem, string) {
 			class := "corrupt-accepted"
 			dirty := true
 			switch {
+			case len(c.O) > maxBlob && c.matchHead:
+				class = "oversize-truncated-acknowledged"
+				// what is stored now is the 16 MiB head, which does match R
+				if p := g.verifyRef(c.R, true, c.O[:maxBlob]); p == nil {
+					dirty = false
+					g.ref.Put(hs.Blob{Name: shortName(c.R), Ref: c.R, Data: c.O[:maxBlob]})
+					if !preHas {
+						g.added++
+					}
+				}
 			case preHas:
 				// the ref already held its true bytes: was the store left alone?
 				if p := g.verifyRef(c.R, true, pre.Data); p == nil {
@@ -165,14 +178,6 @@ func (g *genv) run(c *tcase) (*problem, string) {
 				}
 			case !supported(c.R):
 				class = "unsupported-hash-accepted"
-			case len(c.O) > maxBlob && c.matchHead:
-				class = "oversize-truncated-acknowledged"
-				// what is stored now is the 16 MiB head, which does match R
-				if p := g.verifyRef(c.R, true, c.O[:maxBlob]); p == nil {
-					dirty = false
-					g.ref.Put(hs.Blob{Name: shortName(c.R), Ref: c.R, Data: c.O[:maxBlob]})
-					g.added++
-				}
 			case len(c.O) > maxBlob:
 				class = "oversize-accepted"
 			case isErrMode(c.Mode):
@@ -180,15 +185,24 @@ func (g *genv) run(c *tcase) (*problem, string) {
 			}
 			return prob(dirty, class, "%s: acknowledged as received (%s, size %d) but must be rejected", desc, out.class, out.size), obs
 		}
-		// legitimately accepted: stored bytes = offered bytes
-		if out.size >= 0 && out.size != int64(len(c.O)) {
-			return prob(true, "accepted-size-differs", "%s: acknowledged with size %d", desc, out.size), obs
+		// legitimately accepted: stored bytes = the offered bytes that match R
+		// (all of O; with a failing source possibly the complete blob delivered before the failure)
+		want := c.O
+		if isErrMode(c.Mode) && !c.matchFull {
+			if k := errK(c.Mode); !isMP(c.Path) && k < len(c.O) {
+				want = c.O[:k]
+			} else {
+				want = c.T
+			}
+		}
+		if out.size >= 0 && out.size != int64(len(want)) {
+			return prob(true, "accepted-size-differs", "%s: acknowledged with size %d, want %d", desc, out.size, len(want)), obs
 		}
 		if !preHas {
 			g.added++
 		}
-		g.ref.Put(hs.Blob{Name: shortName(c.R), Ref: c.R, Data: c.O})
-		if p := g.verifyRef(c.R, true, c.O); p != nil {
+		g.ref.Put(hs.Blob{Name: shortName(c.R), Ref: c.R, Data: want})
+		if p := g.verifyRef(c.R, true, want); p != nil {
 			p.detail = desc + ": accepted, then " + p.detail
 			return p, obs
 		}
@@ -289,25 +303,33 @@ func (g *genv) applyPre(c *tcase, withPreHas bool) error {
 type book struct {
 	mu       sync.Mutex
 	perSig   map[string]int
-	dirtyN   int
 	stopped  bool
 	stopNote string
 }
 
 func newBook() *book { return &book{perSig: map[string]int{}} }
 
-// note counts a problem; it returns true when the case should be confirmed
+// note counts a deviation; it returns true when the case should be confirmed
 // and reported (first 3 per signature).
-func (b *book) note(sig string, dirty bool) bool {
+func (b *book) note(sig string) bool {
 	b.mu.Lock()
 	defer b.mu.Unlock()
 	b.perSig[sig]++
-	if dirty {
-		b.dirtyN++
-	}
-	if len(b.perSig) > 40 || b.dirtyN > 400 {
+	if len(b.perSig) > 150 {
 		b.stopped = true
-		b.stopNote = fmt.Sprintf("exploration stopped early after %d distinct violation signatures / %d world-corrupting violations", len(b.perSig), b.dirtyN)
+		b.stopNote = fmt.Sprintf("exploration stopped early after %d distinct violation signatures", len(b.perSig))
 	}
 	return b.perSig[sig] <= 3
+}
+
+func sameInts(a, b []int) bool {
+	if len(a) != len(b) {
+		return false
+	}
+	for i := range a {
+		if a[i] != b[i] {
+			return false
+		}
+	}
+	return true
 }
